@@ -118,13 +118,13 @@ def textOp (args : List String) : String :=
   | ["acct4.str", k] => match unhexArg k with
     | some k => hexOut (pkString Gen.FactsText.account4PrefixBytes k) | none => "bad-op"
   | ["acct4.parse", t] => match unhexArg t with
-    | some t => resOut (parseAccount4 Gen.FactsText.account4TrimPrefixBytes Gen.FactsText.rhp4AccountSize t) | none => "bad-op"
+    | some t => resOut (parseAccount4 Gen.FactsText.acct4HexGuarded Gen.FactsText.account4TrimPrefixBytes Gen.FactsText.rhp4AccountSize t) | none => "bad-op"
   | ["ci.text", h, id] => match h.toNat?, unhexArg id with
     | some h, some id => hexOut (ciText ⟨h, id⟩) | _, _ => "bad-op"
   | ["ci.str", h, id] => match h.toNat?, unhexArg id with
     | some h, some id => hexOut (ciString ⟨h, id⟩) | _, _ => "bad-op"
   | ["ci.parse", t] => match unhexArg t with
-    | some t => (match parseCi 32 t with
+    | some t => (match parseCi Gen.FactsText.ciHexGuarded 32 t with
       | .ok ci => s!"ok {ci.height} {hexOut ci.id}"
       | .err => "err"
       | .panic => "panic")
